@@ -136,6 +136,32 @@ pub open spec fn batches_sorted(bs: Seq<Batch>) -> bool {
     forall|i: int| 0 <= i < bs.len() ==> starts_sorted((#[trigger] bs[i]).items)
 }
 
+/// concatenation of the emitted sections
+pub open spec fn flat(bs: Seq<Batch>) -> Seq<BedEntry>
+    decreases bs.len()
+{
+    if bs.len() == 0 { Seq::empty() } else { flat(bs.drop_last()) + bs.last().items }
+}
+/// State of one chromosome's writer between two entries (C02 at the hand-off boundary): the
+/// emitted sections concatenate to the emitted stream, every section has 1..=ips entries of this
+/// chromosome and is start-sorted, fewer than ips entries are pending, and everything accepted
+/// so far (emitted ++ pending) is start-sorted.
+pub open spec fn chain_inv(sink: SectionSink, items: Seq<BedEntry>, ips: u32, chrom: u32, compress: bool) -> bool {
+    &&& flat(sink.batches()) == sink.log()
+    &&& items.len() < ips
+    &&& batches_ok(sink.batches(), ips, chrom, compress)
+    &&& batches_sorted(sink.batches())
+    &&& starts_sorted(accepted(sink, items))
+}
+proof fn lemma_le_suffix(a: Seq<BedEntry>, b: Seq<BedEntry>, m: u32)
+    requires all_start_le(a + b, m),
+    ensures all_start_le(b, m),
+{
+    assert forall|i: int| 0 <= i < b.len() implies (#[trigger] b[i]).start <= m by {
+        assert((a + b)[a.len() + i] == b[i]);
+    }
+}
+
 proof fn lemma_sorted_push(s: Seq<BedEntry>, x: BedEntry)
     requires starts_sorted(s), all_start_le(s, x.start),
     ensures starts_sorted(s.push(x)),
@@ -192,9 +218,11 @@ fn process_val(
             let all = old(items)@.push(current_val);
             if next_val.is_none() || all.len() >= options.items_per_slot as int {
                 &&& final(ftx).batches() == old(ftx).batches().push(Batch { items: all, chrom: chrom_id, compress: options.compress })
+                &&& final(ftx).log() == old(ftx).log() + all
                 &&& final(items)@.len() == 0
             } else {
                 &&& final(ftx).batches() == old(ftx).batches()
+                &&& final(ftx).log() == old(ftx).log()
                 &&& final(items)@ == all
             }
         }),
@@ -214,6 +242,14 @@ fn process_val(
         r.is_ok() && starts_sorted(old(items)@) && all_start_le(old(items)@, current_val.start) && batches_sorted(old(ftx).batches())
             ==> batches_sorted(final(ftx).batches()) && starts_sorted(final(items)@)
                 && (next_val.is_some() ==> all_start_le(final(items)@, next_val.unwrap().start)),
+        
+        r.is_ok() && chain_inv(*old(ftx), old(items)@, options.items_per_slot, chrom_id, options.compress)
+            && all_start_le(accepted(*old(ftx), old(items)@), current_val.start)
+            ==> chain_inv(*final(ftx), final(items)@, options.items_per_slot, chrom_id, options.compress)
+                && (next_val.is_some() ==> all_start_le(accepted(*final(ftx), final(items)@), next_val.unwrap().start)),
+        
+        r.is_ok() && next_val.is_none() && chain_inv(*old(ftx), old(items)@, options.items_per_slot, chrom_id, options.compress)
+            ==> flat(final(ftx).batches()) == accepted(*old(ftx), old(items)@).push(current_val),
 {
     // Check a few preconditions:
     // - The current end is greater than or equal to the start
@@ -264,7 +300,7 @@ fn process_val(
 
     proof {
         let all = items0.push(current_val);
-        assert(accepted(*ftx, items@) =~= acc0.push(current_val));
+        assert(accepted(*ftx, items@) =~= acc0.push(current_val)); 
         if starts_sorted(items0) && all_start_le(items0, current_val.start) {
             lemma_sorted_push(items0, current_val);
             if next_val.is_some() { lemma_le_push(items0, current_val, next_val.unwrap().start); }
@@ -272,6 +308,17 @@ fn process_val(
         if starts_sorted(acc0) && all_start_le(acc0, current_val.start) {
             lemma_sorted_push(acc0, current_val);
             if next_val.is_some() { lemma_le_push(acc0, current_val, next_val.unwrap().start); }
+        }
+        if next_val.is_none() || all.len() >= options.items_per_slot as int {
+            let b = Batch { items: all, chrom: chrom_id, compress: options.compress };
+            assert(bs0.push(b).drop_last() =~= bs0);
+            assert(bs0.push(b).last() == b);
+            assert((old(ftx).log() + items0).push(current_val) =~= old(ftx).log() + all);
+        }
+        if starts_sorted(acc0) && all_start_le(acc0, current_val.start) {
+            lemma_sorted_suffix(old(ftx).log(), items0);
+            lemma_le_suffix(old(ftx).log(), items0, current_val.start);
+            lemma_sorted_push(items0, current_val);
         }
     }
     Ok(())
@@ -359,12 +406,21 @@ fn do_process(
         
         refused(current_val, next_val, old(self).length) ==> r.is_err()
             && final(self).state_val.items@ == old(self).state_val.items@
-            && final(self).ftx.log() == old(self).ftx.log() && final(self).ftx.batches() == old(self).ftx.batches(),
+            && final(self).ftx.log() == old(self).ftx.log() && final(self).ftx.batches() == old(self).ftx.batches()
+            && final(self).summary == old(self).summary && final(self).state_val.overlap == old(self).state_val.overlap
+            && final(self).state_val.zoom_items@ == old(self).state_val.zoom_items@,
         
         !refused(current_val, next_val, old(self).length) ==>
             accepted(final(self).ftx, final(self).state_val.items@) == accepted(old(self).ftx, old(self).state_val.items@).push(current_val),
         
         !refused(current_val, next_val, old(self).length) && next_val.is_none() ==> final(self).state_val.items@.len() == 0,
+        
+        !refused(current_val, next_val, old(self).length)
+            && chain_inv(old(self).ftx, old(self).state_val.items@, old(self).options.items_per_slot, old(self).chrom_id, old(self).options.compress)
+            && all_start_le(accepted(old(self).ftx, old(self).state_val.items@), current_val.start)
+            ==> chain_inv(final(self).ftx, final(self).state_val.items@, old(self).options.items_per_slot, old(self).chrom_id, old(self).options.compress)
+                && (next_val.is_some() ==> all_start_le(accepted(final(self).ftx, final(self).state_val.items@), next_val.unwrap().start))
+                && (next_val.is_none() ==> flat(final(self).ftx.batches()) == accepted(old(self).ftx, old(self).state_val.items@).push(current_val)),
         
         final(self).chrom_id == old(self).chrom_id, final(self).length == old(self).length,
         final(self).options == old(self).options,
@@ -445,6 +501,13 @@ fn do_process(
         r.is_ok() ==> accepted(final(self).ftx, final(self).items@) == accepted(old(self).ftx, old(self).items@).push(current_val),
         
         r.is_ok() && next_val.is_none() ==> final(self).items@.len() == 0,
+        
+        r.is_ok()
+            && chain_inv(old(self).ftx, old(self).items@, old(self).options.items_per_slot, old(self).chrom_id, old(self).options.compress)
+            && all_start_le(accepted(old(self).ftx, old(self).items@), current_val.start)
+            ==> chain_inv(final(self).ftx, final(self).items@, old(self).options.items_per_slot, old(self).chrom_id, old(self).options.compress)
+                && (next_val.is_some() ==> all_start_le(accepted(final(self).ftx, final(self).items@), next_val.unwrap().start))
+                && (next_val.is_none() ==> flat(final(self).ftx.batches()) == accepted(old(self).ftx, old(self).items@).push(current_val)),
         
         final(self).chrom_id == old(self).chrom_id, final(self).length == old(self).length,
         final(self).options == old(self).options,
@@ -545,7 +608,7 @@ fn zoom_count_step(zoom: &mut ZoomCounts, item_start: u32, item_end: u32)
             let ghost c1 = zoom.counts as int;
             let ghost res = zoom.resolution as int;
             proof { lemma_tiles_bound(ce1, item_end as int, res); }
-            while item_end as u64 >= zoom.current_end 
+            while item_end as u64 > zoom.current_end 
                 invariant
                     
                     zoom.resolution == old(zoom).resolution, res == zoom.resolution as int,
@@ -564,7 +627,7 @@ fn zoom_count_step(zoom: &mut ZoomCounts, item_start: u32, item_end: u32)
                 zoom.counts = zoom.counts + (1);
 
                 proof {
-                    lemma_tiles_step(zoom.current_end as int, item_end as int, res);
+                    lemma_tiles_step(zoom.current_end as int, item_end as int, res); 
                     lemma_tiles_bound(zoom.current_end as int + res, item_end as int, res);
                 }
                 zoom.current_end = zoom.current_end + (zoom.resolution);
